@@ -1,424 +1,261 @@
 """
 C11 -- Port-ID and minor-version consistency rules hold for every set of definitions.
 
-The checks touch definitions only through comparisons of a few accessors, so each decision is a function of finitely
-many atoms; the extracted path conditions are compared with the Specification on all consistent valuations.
+The checks touch definitions only through a few accessors (full_name, version, kind, fixed port-ID, extent, sealing), so
+their decisions are functions of a small abstract state.  The functions are *abstractly evaluated* over a finite family of
+abstract definitions that realises every combination of those accessors' relations, and the outcome (accept / which
+InvalidDefinitionError) is compared with the Specification.  An accessor outside the family -> ANALYSIS-ERROR.
+
+R1  port-ID collision decision for every pair (names equal/different, majors 0/1/2, kinds, port-IDs none/0/5/6).
+R2  pairwise minor-version compatibility (kind, port-ID rules, extent, sealing, recursion into the halves of services).
+R3  grouping: every two different minor versions under one name and major are compared; nothing else is.
+R4  scope: the checks receive the target types (collisions) and targets + dependencies (compatibility), before returning.
 """
 from __future__ import annotations
 
 import ast
-import copy
+import itertools
 from typing import Any, Dict, List, Optional, Sequence, Tuple
 
-from ..core import AnalysisError, ClassInfo, Ctx, FuncInfo, body_without_docstring, calls_in, dotted, norm, unparse, walk_no_nested
-from ..decide import A, Path, f_and, f_atoms, f_eval, f_not, f_or, path_formula, paths_of, to_formula, valuations
-from ..regions import exc_class_of
+from ..absint import Raised, Recorder, call_fn, module_call_hook
+from ..codec import isa_of
+from ..core import AnalysisError, ClassInfo, Ctx, FuncInfo, norm
+from ..fold import Sym, Unfoldable
 
 IDE = "_error.InvalidDefinitionError"
 NS = "_namespace"
+SER = "_serializable._composite."
 
 
-class _DistributeIfExp(ast.NodeTransformer):
-    """(X if C else Y).attr  ->  (X.attr if C else Y.attr)"""
-
-    def visit_Attribute(self, n: ast.Attribute) -> ast.AST:
-        n = self.generic_visit(n)  # type: ignore
-        if isinstance(n.value, ast.IfExp):
-            t = n.value
-            return ast.IfExp(test=t.test, body=ast.Attribute(value=t.body, attr=n.attr, ctx=n.ctx), orelse=ast.Attribute(value=t.orelse, attr=n.attr, ctx=n.ctx))
-        return n
-
-
-def _canon_access(e: ast.AST) -> Optional[Tuple[str, str]]:
-    """a.version.major / a.version[0] / b.full_name ... -> ('a', 'version.major')"""
-    if isinstance(e, ast.Subscript) and isinstance(e.slice, ast.Constant) and norm(e.value).endswith(".version"):
-        idx = e.slice.value
-        base = _canon_access(e.value)
-        if base and idx in (0, 1):
-            return base[0], base[1] + (".major" if idx == 0 else ".minor")
-    d = dotted(e)
-    if d and "." in d:
-        head, rest = d.split(".", 1)
-        if head in ("a", "b"):
-            return head, rest
-    return None
+def _definition(ctx: Ctx, name: str, major: int, minor: int, service: bool, fpid: Optional[int], extent: int = 64, sealed: bool = True, halves: Optional[Tuple[Any, Any]] = None) -> Sym:
+    kind = "ServiceType" if service else ("StructureType" if sealed else "DelimitedType")
+    d = Sym(
+        _isa_=isa_of(ctx, SER + kind), _kind_=kind, full_name=name, version=_version(major, minor), fixed_port_id=fpid, has_fixed_port_id=fpid is not None,
+        source_file_path="%s.%d.%d" % (name, major, minor), name=name, short_name=name.split(".")[-1], full_namespace=".".join(name.split(".")[:-1]), root_namespace=name.split(".")[0],
+        name_components=name.split("."),
+    )
+    if not service:
+        d.extent = extent
+    else:
+        rq, rs = halves if halves is not None else (_definition(ctx, name + ".Request", major, minor, False, None), _definition(ctx, name + ".Response", major, minor, False, None))
+        d.request_type, d.response_type = rq, rs
+    return d
 
 
-class Atomizer:
-    """Atoms over a pair (a, b) of composite types."""
+class _V(tuple):
+    """Version(major, minor): a named pair"""
 
-    def __init__(self, ctx: Ctx, fn: FuncInfo):
-        self.ctx = ctx
-        self.fn = fn
-        self.repo = ctx.repo
+    _fields = ("major", "minor")
 
-    def isinst(self, e: ast.AST) -> Optional[Tuple[str, str]]:
-        if isinstance(e, ast.Call) and dotted(e.func) == "isinstance" and len(e.args) == 2 and isinstance(e.args[0], ast.Name) and e.args[0].id in ("a", "b"):
-            k = self.repo.resolve_expr(self.fn.module, e.args[1], None)
-            if isinstance(k, ClassInfo):
-                return e.args[0].id, k.name
-        return None
+    @property
+    def major(self) -> int:
+        return self[0]
 
-    def formula(self, e: Any) -> Any:
-        return to_formula(e, self.atom)
-
-    def atom(self, e: Any) -> Any:
-        if isinstance(e, tuple):
-            return A("M:%s" % e[0])
-        if isinstance(e, ast.IfExp):
-            c = self.formula(e.test)
-            return f_or(f_and(c, self.formula(e.body)), f_and(f_not(c), self.formula(e.orelse)))
-        ii = self.isinst(e)
-        if ii is not None:
-            who, k = ii
-            if k == "ServiceType":
-                return A("%s_SVC" % who.upper())
-            if k == "DelimitedType":
-                return f_not(A("%s_SEALED" % who.upper()))
-            raise AnalysisError("isinstance against %s is outside the C11 abstraction" % k)
-        acc = _canon_access(e)
-        if acc is not None:
-            who, path = acc
-            if path == "has_fixed_port_id":
-                return A("%s_HAS" % who.upper())
-            if path == "fixed_port_id":
-                # truthiness of an Optional[int]: present and non-zero (0 is a valid subject- and service-ID)
-                return f_and(A("%s_HAS" % who.upper()), f_not(A("%s_FPID_ZERO" % who.upper())))
-        if isinstance(e, ast.Compare) and len(e.ops) == 1:
-            l, op, r = e.left, e.ops[0], e.comparators[0]
-            la, ra = _canon_access(l), _canon_access(r)
-            opn = type(op).__name__
-            # accessor vs constant
-            for acc_, const, flip in ((la, r, False), (ra, l, True)):
-                if acc_ is not None and isinstance(const, ast.Constant):
-                    who, path = acc_
-                    o = opn if not flip else {"Lt": "Gt", "Gt": "Lt", "LtE": "GtE", "GtE": "LtE"}.get(opn, opn)
-                    if path == "version.major" and isinstance(const.value, int):
-                        v = const.value
-                        # major is a non-negative integer: released <=> major > 0 <=> major >= 1 <=> major != 0
-                        rel = A("%s_REL" % who.upper())
-                        if (o, v) in (("Gt", 0), ("GtE", 1), ("NotEq", 0)):
-                            return rel
-                        if (o, v) in (("Eq", 0), ("Lt", 1), ("LtE", 0)):
-                            return f_not(rel)
-                        if (o, v) in (("GtE", 0), ("Gt", -1)):
-                            return True  # tautology for a non-negative major
-                        if (o, v) in (("Lt", 0), ("LtE", -1)):
-                            return False
-                    if path == "fixed_port_id" and const.value is None:
-                        has = A("%s_HAS" % who.upper())
-                        if o in ("IsNot", "NotEq"):
-                            return has
-                        if o in ("Is", "Eq"):
-                            return f_not(has)
-            # accessor vs accessor of the other side
-            if la is not None and ra is not None and la[1] == ra[1] and {la[0], ra[0]} == {"a", "b"}:
-                path = la[1]
-                names = {"full_name": "NAME", "version.major": "MAJOR", "fixed_port_id": "FPID", "extent": "EXTENT", "has_fixed_port_id": None}
-                if path in ("full_name", "version.major", "fixed_port_id", "extent", "version"):
-                    base = A({"full_name": "NAME_NEQ", "version.major": "MAJOR_NEQ", "fixed_port_id": "FPID_NEQ", "extent": "EXTENT_NEQ", "version": "VERSION_NEQ"}[path])
-                    if opn == "NotEq":
-                        return base
-                    if opn == "Eq":
-                        return f_not(base)
-                if path == "version.minor" and opn in ("Gt", "Lt", "GtE", "LtE"):
-                    # minors of a compared pair differ (asserted by the callers' grouping), so >= is > here
-                    a_newer = A("A_NEWER")
-                    first_is_a = la[0] == "a"
-                    gt = opn in ("Gt", "GtE")
-                    return a_newer if (gt == first_is_a) else f_not(a_newer)
-            # boolean (in)equality of two sub-formulas: xor / iff
-            if opn in ("Eq", "NotEq"):
-                try:
-                    lf, rf = self.formula(l), self.formula(r)
-                except AnalysisError:
-                    lf = rf = None
-                if lf is not None and rf is not None and not isinstance(l, ast.Constant) and not isinstance(r, ast.Constant):
-                    iff = f_or(f_and(lf, rf), f_and(f_not(lf), f_not(rf)))
-                    return iff if opn == "Eq" else f_not(iff)
-            if opn in ("Is", "IsNot") and isinstance(l, ast.Name) and isinstance(r, ast.Name) and {l.id, r.id} == {"a", "b"}:
-                same = A("SAME_OBJECT")
-                return same if opn == "Is" else f_not(same)
-        raise AnalysisError("%s: condition outside the C11 abstraction: %s" % (self.fn.qualname, norm(e)))
+    @property
+    def minor(self) -> int:
+        return self[1]
 
 
-ZERO_ATOMS = ["A_FPID_ZERO", "B_FPID_ZERO"]
+def _version(major: int, minor: int) -> Any:
+    return _V((major, minor))
 
 
-def _zero_consistent(v: Dict[str, bool]) -> bool:
-    """x_FPID_ZERO (port-ID == 0; appears only when the code tests a port-ID's truthiness) versus HAS / FPID_NEQ"""
-    az, bz = v.get("A_FPID_ZERO", False), v.get("B_FPID_ZERO", False)
-    if (az and not v["A_HAS"]) or (bz and not v["B_HAS"]):
-        return False
-    if az and bz and v["FPID_NEQ"]:
-        return False
-    if v["A_HAS"] and v["B_HAS"] and az != bz and not v["FPID_NEQ"]:
-        return False
-    return True
+def _outcome(ctx: Ctx, fn: FuncInfo, args: List[Any], hook: Any = None) -> str:
+    if hook is None:
+        hook = module_call_hook(ctx, fn.module, [], [], record=[])
+    try:
+        call_fn(ctx, fn, args, hook=hook, keep=tuple(fn.module.functions))
+        return "accept"
+    except Raised as r:
+        return r.cls_name
+    except Unfoldable as ex:
+        raise AnalysisError("%s: cannot evaluate over abstract definitions: %s" % (fn.short, ex))
 
 
-def _exc_name(ctx: Ctx, fn: FuncInfo, p: Path) -> Tuple[str, bool]:
-    k = exc_class_of(ctx.repo, fn.module, fn.cls, p.value)
-    if isinstance(k, ClassInfo):
-        return k.name, ctx.repo.is_subclass(k, IDE)
-    return unparse(p.value), False
-
-
-def _pair_loops(fn: FuncInfo, p: Path) -> List[Tuple[str, str]]:
-    return [(c[1], norm(c[2])) for c, pol in p.conds if isinstance(c, tuple) and c[0] == "for" and pol]
+def _is_ide(ctx: Ctx, name: str) -> bool:
+    k = next((c for c in ctx.repo.all_classes().values() if c.name == name), None)
+    return k is not None and ctx.repo.is_subclass(k, IDE)
 
 
 def rule_r1(ctx: Ctx) -> None:
-    ctx.rule("C11.R1", "fixed port-ID collision: error <=> SAME_KIND & A_HAS & B_HAS & FPID_EQ & (NAME_NEQ | (MAJOR_NEQ & A_REL & B_REL)), over all pairs of the argument", min_instances=2)
+    ctx.rule("C11.R1", "fixed port-ID collision: error <=> same kind & both have a port-ID & equal port-IDs & (different names | (different majors & both majors > 0)), for every pair", min_instances=2)
     fn = ctx.func(NS + "._ensure_no_fixed_port_id_collisions")
-    param = fn.params[0]
-    body = [_DistributeIfExp().visit(copy.deepcopy(s)) for s in body_without_docstring(fn.node)]
-    from ..decide import PathEnumerator
-
-    paths = PathEnumerator().run(body)
-    at = Atomizer(ctx, fn)
-    raises = [p for p in paths if p.kind == "raise"]
-    if not raises:
-        ctx.fail(fn.short, "collision raise", "the collision check no longer raises", where=fn.where())
-        return
-    # iteration: both loop variables range over the whole argument
-    loops_ok = True
-    for p in raises:
-        loops = _pair_loops(fn, p)
-        if sorted(v for v, _ in loops) != ["a", "b"] or any(it != param for _, it in loops):
-            loops_ok = False
-    ctx.check(loops_ok, fn.short, "all pairs of the argument", "every ordered pair (a, b) of the given types must be compared", fn.where(), [_pair_loops(fn, p) for p in raises])
-
-    def err_formula() -> Any:
-        fs = []
-        for p in raises:
-            fs.append(path_formula(p, lambda e: True if (isinstance(e, tuple) and e[0] == "for") else at.formula(e) if not isinstance(e, tuple) else at.atom(e)))
-        return f_or(*fs)
-
-    err = err_formula()
-    atoms = ["NAME_NEQ", "MAJOR_NEQ", "A_SVC", "B_SVC", "A_REL", "B_REL", "A_HAS", "B_HAS", "FPID_NEQ"]
-    atoms += [a for a in ZERO_ATOMS if a in f_atoms(err)]
-    extra = [a for a in f_atoms(err) if a not in atoms]
-    if extra:
-        raise AnalysisError("%s: atoms outside the vocabulary: %s" % (fn.qualname, extra))
-
-    def consistent(v: Dict[str, bool]) -> bool:
-        if not v["A_HAS"] and not v["B_HAS"] and v["FPID_NEQ"]:
-            return False
-        if v["A_HAS"] != v["B_HAS"] and not v["FPID_NEQ"]:
-            return False
-        if v["MAJOR_NEQ"] and not v["A_REL"] and not v["B_REL"]:
-            return False  # both majors are 0
-        return _zero_consistent(v)
-
     bad = []
+    classes = set()
     n = 0
-    for v in valuations(atoms, consistent):
-        n += 1
-        same_kind = v["A_SVC"] == v["B_SVC"]
-        want = same_kind and v["A_HAS"] and v["B_HAS"] and not v["FPID_NEQ"] and (v["NAME_NEQ"] or (v["MAJOR_NEQ"] and v["A_REL"] and v["B_REL"]))
-        got = f_eval(err, v)
-        if got != want:
-            bad.append({"state": {k: v[k] for k in atoms}, "found": "error" if got else "ok", "expected": "error" if want else "ok"})
+    ids: List[Optional[int]] = [None, 0, 5, 6]
+    for same_name in (True, False):
+        for ma, mb in itertools.product((0, 1, 2), repeat=2):
+            for sa_, sb in itertools.product((False, True), repeat=2):
+                for ia, ib in itertools.product(ids, repeat=2):
+                    if same_name and ma == mb and sa_ != sb:
+                        continue  # one name and version cannot be both a message and a service
+                    a = _definition(ctx, "ns.A", ma, 0 if not same_name else 1, sa_, ia)
+                    b = _definition(ctx, "ns.A" if same_name else "ns.B", mb, 0, sb, ib)
+                    must_differ = (sa_ == sb) and ((not same_name) or (ma != mb and ma > 0 and mb > 0))
+                    want = must_differ and ia is not None and ib is not None and ia == ib
+                    for order in ([a, b], [b, a]):
+                        got = _outcome(ctx, fn, [order])
+                        n += 1
+                        if got != "accept":
+                            classes.add(got)
+                        if (got != "accept") != want:
+                            bad.append({"a": a.source_file_path + (" service" if sa_ else ""), "a port": ia, "b": b.source_file_path + (" service" if sb else ""), "b port": ib, "found": got, "expected": "collision error" if want else "accept"})
     ctx.count(n)
-    ctx.check(not bad, fn.short, "collision formula", "port-ID collision decision must equal the Specification on all %d consistent valuations" % n, fn.where(), bad[:4])
-    bad_cls = [x for x in (_exc_name(ctx, fn, p) for p in raises) if not x[1]]
-    ctx.check(not bad_cls, fn.short, "rejection class", "collisions must be InvalidDefinitionError subclasses", fn.where(), bad_cls)
-    from ..decide import f_str
+    ctx.check(not bad, fn.short, "collision decision", "port-ID collision decision must equal the Specification on all %d abstract pairs" % n, fn.where(), bad[:4])
+    not_ide = sorted(c for c in classes if not _is_ide(ctx, c))
+    ctx.check(not not_ide and bool(classes), fn.short, "rejection class %s" % sorted(classes), "collisions must be InvalidDefinitionError subclasses", fn.where(), not_ide)
+    # every pair of a longer list is looked at: a colliding pair anywhere in the list is found
+    bad2 = []
+    for pos in itertools.combinations(range(4), 2):
+        lst = [_definition(ctx, "ns.T%d" % i, 1, 0, False, 100 + i) for i in range(4)]
+        lst[pos[1]].fixed_port_id = lst[pos[0]].fixed_port_id
+        got = _outcome(ctx, fn, [lst])
+        ctx.count()
+        if got == "accept":
+            bad2.append({"colliding positions": pos})
+    ctx.check(not bad2, fn.short, "all pairs of the argument", "every pair of the given types must be compared", fn.where(), bad2)
 
-    ctx.sample({"rule": "C11.R1", "extracted": f_str(err), "valuations": n})
+
+def _spec_pairwise(a: Any, b: Any) -> List[str]:
+    """the rules violated by two minor versions of one name and major (several may be: any of their errors is acceptable)"""
+    a_svc, b_svc = a._kind_ == "ServiceType", b._kind_ == "ServiceType"
+    if a_svc != b_svc:
+        return ["VersionsOfDifferentKindError"]
+    out = []
+    if a.has_fixed_port_id == b.has_fixed_port_id:
+        if a.fixed_port_id != b.fixed_port_id:
+            out.append("MinorVersionFixedPortIDError")
+    else:
+        newer = a if a.version.minor > b.version.minor else b
+        if not newer.has_fixed_port_id:
+            out.append("MinorVersionFixedPortIDError")
+    if a_svc:
+        out += _spec_pairwise(a.request_type, b.request_type) + _spec_pairwise(a.response_type, b.response_type)
+    elif a.version.major > 0:
+        if a.extent != b.extent:
+            out.append("ExtentConsistencyError")
+        if (a._kind_ == "DelimitedType") != (b._kind_ == "DelimitedType"):
+            out.append("SealingConsistencyError")
+    return out
 
 
 def rule_r2(ctx: Ctx) -> None:
     ctx.rule("C11.R2", "minor-version compatibility: same kind; same port-ID or added only in the newer minor; for major>0 equal extent and equal sealing; services recurse into (request,request),(response,response)", min_instances=1)
     fn = ctx.func(NS + "._ensure_minor_version_compatibility_pairwise")
-    if fn.params[:2] != ["a", "b"]:
-        raise AnalysisError("pairwise check parameters renamed: %s" % fn.params)
-    body = [_DistributeIfExp().visit(copy.deepcopy(s)) for s in body_without_docstring(fn.node)]
-    from ..decide import PathEnumerator
-
-    paths = PathEnumerator().run(body)
-    paths = [p for p in paths]
-    # after substitution `must_have` became an IfExp: distribute again on conditions
-    at = Atomizer(ctx, fn)
-
-    def cond_formula(p: Path) -> Any:
-        fs = []
-        for c, pol in p.conds:
-            if isinstance(c, tuple):
-                if c[0] == "assert":
-                    continue
-                raise AnalysisError("%s: unexpected marker %s" % (fn.qualname, c[0]))
-            c2 = _DistributeIfExp().visit(copy.deepcopy(c))
-            f = at.formula(c2)
-            fs.append(f if pol else f_not(f))
-        return f_and(*fs)
-
-    forms = [(p, cond_formula(p)) for p in paths]
-    atoms = ["A_SVC", "B_SVC", "A_HAS", "B_HAS", "FPID_NEQ", "A_NEWER", "A_REL", "EXTENT_NEQ", "A_SEALED", "B_SEALED"]
-    used: List[str] = []
-    for _, f in forms:
-        for a in f_atoms(f):
-            if a not in used:
-                used.append(a)
-    # `elif a.version.major > 0` may equally be spelled on b (majors are equal in a compared pair)
-    used = ["A_REL" if a == "B_REL" else a for a in used]
-    atoms += [a for a in ZERO_ATOMS if a in used]
-    extra = [a for a in used if a not in atoms]
-    if extra:
-        raise AnalysisError("%s: atoms outside the vocabulary: %s" % (fn.qualname, extra))
-
-    def consistent(v: Dict[str, bool]) -> bool:
-        if not v["A_HAS"] and not v["B_HAS"] and v["FPID_NEQ"]:
-            return False
-        if v["A_HAS"] != v["B_HAS"] and not v["FPID_NEQ"]:
-            return False
-        return _zero_consistent(v)
-
-    expected_cls = {
-        "kind": "VersionsOfDifferentKindError",
-        "fpid": "MinorVersionFixedPortIDError",
-        "extent": "ExtentConsistencyError",
-        "sealing": "SealingConsistencyError",
-    }
+    mod = fn.module
     bad = []
     n = 0
-    for v in valuations(atoms, consistent):
+    ids: List[Optional[int]] = [None, 0, 5, 6]
+
+    def run(a: Any, b: Any) -> str:
+        log: List[Any] = []
+        hook = module_call_hook(ctx, mod, [], log, record=[])
+        return _outcome(ctx, fn, [a, b], hook)
+
+    def judge(a: Any, b: Any, label: str) -> None:
+        nonlocal n
+        got = run(a, b)
+        want = _spec_pairwise(a, b)
         n += 1
-        vv = dict(v)
-        vv["B_REL"] = v["A_REL"]
-        taken = [p for p, f in forms if f_eval(f, vv)]
-        if len(taken) != 1:
-            raise AnalysisError("%s: %d feasible paths for %s" % (fn.qualname, len(taken), v))
-        p = taken[0]
-        violated = []
-        if v["A_SVC"] != v["B_SVC"]:
-            violated.append("kind")
-        else:
-            if v["A_HAS"] == v["B_HAS"] and v["FPID_NEQ"]:
-                violated.append("fpid")
-            if v["A_HAS"] != v["B_HAS"] and not (v["A_HAS"] if v["A_NEWER"] else v["B_HAS"]):
-                violated.append("fpid")
-            if not v["A_SVC"] and v["A_REL"]:
-                if v["EXTENT_NEQ"]:
-                    violated.append("extent")
-                if v["A_SEALED"] != v["B_SEALED"]:
-                    violated.append("sealing")
-        rejected = p.kind == "raise"
-        if rejected != bool(violated):
-            bad.append({"state": v, "found": "reject" if rejected else "accept", "violated_rules": violated})
-            continue
-        if rejected:
-            name, is_ide = _exc_name(ctx, fn, p)
-            if not is_ide or name not in {expected_cls[x] for x in violated}:
-                bad.append({"state": v, "raises": name, "violated_rules": violated})
-        else:
-            # both services: the halves must be compared
-            if v["A_SVC"] and v["B_SVC"]:
-                rec = sorted(norm(ev) for ev in p.events if isinstance(ev, ast.Call) and dotted(ev.func) == fn.name)
-                want_rec = sorted(["%s(a.request_type, b.request_type)" % fn.name, "%s(a.response_type, b.response_type)" % fn.name])
-                if rec != want_rec:
-                    bad.append({"state": v, "recursion": rec, "expected": want_rec})
+        if (got == "accept") != (not want) or (got != "accept" and (got not in want or not _is_ide(ctx, got))):
+            bad.append({"pair": label, "found": got, "violated rules": want or "none"})
+
+    for major in (0, 1):
+        for a_newer in (False, True):
+            ma, mb = (2, 1) if a_newer else (1, 2)
+            # messages
+            for ia, ib in itertools.product(ids, repeat=2):
+                for ea, eb in ((64, 64), (64, 72)):
+                    for sa_, sb in itertools.product((True, False), repeat=2):
+                        a = _definition(ctx, "ns.A", major, ma, False, ia, ea, sa_)
+                        b = _definition(ctx, "ns.A", major, mb, False, ib, eb, sb)
+                        judge(a, b, "messages major=%d minors=%d,%d ports=%s,%s extents=%d,%d sealed=%s,%s" % (major, ma, mb, ia, ib, ea, eb, sa_, sb))
+            # different kinds
+            for sa_, sb in ((True, False), (False, True)):
+                a = _definition(ctx, "ns.A", major, ma, sa_, None)
+                b = _definition(ctx, "ns.A", major, mb, sb, None)
+                judge(a, b, "kinds service=%s,%s" % (sa_, sb))
+            # services: port-IDs on the service, extent / sealing on each half
+            for ia, ib in itertools.product(ids, repeat=2):
+                a = _definition(ctx, "ns.S", major, ma, True, ia)
+                b = _definition(ctx, "ns.S", major, mb, True, ib)
+                judge(a, b, "services major=%d ports=%s,%s" % (major, ia, ib))
+            for half in (0, 1):
+                for what in ("extent", "sealing"):
+                    def mk(minor: int, odd: bool) -> Any:
+                        hs = [_definition(ctx, "ns.S.Request", major, minor, False, None), _definition(ctx, "ns.S.Response", major, minor, False, None)]
+                        if odd:
+                            hs[half] = _definition(ctx, hs[half].full_name, major, minor, False, None, 72 if what == "extent" else 64, what != "sealing")
+                        return _definition(ctx, "ns.S", major, minor, True, 7, halves=(hs[0], hs[1]))
+
+                    judge(mk(ma, True), mk(mb, False), "services major=%d, %s of the %s differs" % (major, what, ("request", "response")[half]))
     ctx.count(n)
-    ctx.check(not bad, fn.short, "compatibility decision", "minor-version compatibility must equal the Specification on all %d consistent valuations (incl. recursion into service halves)" % n, fn.where(), bad[:4])
-    ctx.sample({"rule": "C11.R2", "paths": len(paths), "valuations": n})
-
-
-def _loop_chain(fn: FuncInfo) -> Dict[str, Any]:
-    """Extract the grouping structure of _ensure_minor_version_compatibility."""
-    info: Dict[str, Any] = {"fills": {}, "loops": []}
-    for n in ast.walk(fn.node):
-        if isinstance(n, ast.For):
-            info["loops"].append((norm(n.target), norm(n.iter), n))
-            for st in n.body:
-                if isinstance(st, ast.Expr) and isinstance(st.value, ast.Call):
-                    c = st.value
-                    if isinstance(c.func, ast.Attribute) and c.func.attr == "append" and isinstance(c.func.value, ast.Subscript):
-                        d = norm(c.func.value.value)
-                        key = norm(c.func.value.slice)
-                        info["fills"][d] = {"key": key, "item": norm(c.args[0]) if c.args else None, "loop_var": norm(n.target), "loop_iter": norm(n.iter)}
-    return info
+    ctx.check(not bad, fn.short, "compatibility decision", "minor-version compatibility must equal the Specification on all %d abstract pairs (incl. recursion into service halves)" % n, fn.where(), bad[:4])
+    ctx.sample({"rule": "C11.R2", "pairs": n})
 
 
 def rule_r3(ctx: Ctx) -> None:
     ctx.rule("C11.R3", "grouping: by full name, then by major version; every pair of distinct members of a group is checked", min_instances=1)
     fn = ctx.func(NS + "._ensure_minor_version_compatibility")
-    param = fn.params[0]
-    info = _loop_chain(fn)
     pair = ctx.func(NS + "._ensure_minor_version_compatibility_pairwise").name
-    calls = [c for c in calls_in(fn.node) if dotted(c.func) == pair]
-    detail: Dict[str, Any] = {"fills": info["fills"]}
-    good = len(calls) == 1
-    if good:
-        call = calls[0]
-        args = [norm(a) for a in call.args]
-        # find enclosing loops of the call
-        chain = []
-        for tgt, it, node in info["loops"]:
-            if any(c is call for c in ast.walk(node)):
-                chain.append((tgt, it, node))
-        inner = [x for x in chain if x[0] in args]
-        detail["pair_loops"] = [(t, i) for t, i, _ in inner]
-        good = len(inner) == 2 and sorted(t for t, _, _ in inner) == sorted(args) and inner[0][1] == inner[1][1]
-        group = inner[0][1] if inner else None
-        # distinctness guard directly around the call
-        guard_ok = False
-        for n in ast.walk(fn.node):
-            if isinstance(n, ast.If) and any(c is call for c in ast.walk(ast.Module(body=n.body, type_ignores=[]))):
-                t = n.test
-                if isinstance(t, ast.Compare) and len(t.ops) == 1 and isinstance(t.ops[0], ast.IsNot) and sorted([norm(t.left), norm(t.comparators[0])]) == sorted(args):
-                    guard_ok = True
-                else:
-                    detail["guard"] = norm(t)
-        good = good and guard_ok
-        # group comes from D.values() where D is filled keyed by version.major from a group that comes from
-        # E.values() where E is filled keyed by full_name from the parameter
-        def source_of(var: str) -> Optional[str]:
-            for tgt, it, _ in info["loops"]:
-                if tgt == var and it.endswith(".values()"):
-                    return it[: -len(".values()")]
-            return None
-
-        d_major = source_of(group) if group else None
-        f1 = info["fills"].get(d_major or "")
-        detail["major_grouping"] = f1
-        good = good and f1 is not None and f1["key"] in ("%s.version.major" % f1["loop_var"], "%s.version[0]" % f1["loop_var"]) and f1["item"] == f1["loop_var"]
-        d_name = source_of(f1["loop_iter"]) if f1 else None
-        f2 = info["fills"].get(d_name or "")
-        detail["name_grouping"] = f2
-        good = good and f2 is not None and f2["key"] == "%s.full_name" % f2["loop_var"] and f2["item"] == f2["loop_var"] and f2["loop_iter"] == param
-    ctx.check(good, fn.short, "grouping by (full_name, major) and all distinct pairs", "every two different minor versions under one name and major must be compared", fn.where(), detail)
+    spec = [("ns.A", 1, 0), ("ns.A", 1, 1), ("ns.A", 1, 2), ("ns.A", 1, 3), ("ns.A", 2, 0), ("ns.B", 1, 0), ("ns.B", 1, 1), ("ns.A", 0, 1), ("ns.A", 0, 2), ("ns.C", 3, 0), ("zz.A", 1, 0), ("zz.A", 1, 1)]
+    bad = []
+    for rot in (0, 3, 7):
+        defs = [_definition(ctx, nm, ma, mi, False, None) for nm, ma, mi in spec[rot:] + spec[:rot]]
+        log: List[Any] = []
+        hook = module_call_hook(ctx, fn.module, [], log, results={pair: None}, record=[pair])
+        try:
+            call_fn(ctx, fn, [defs], hook=hook, keep=tuple(fn.module.functions))
+        except Raised as r:
+            raise AnalysisError("%s raised %s over compatible abstract definitions" % (fn.short, r.cls_name))
+        except Unfoldable as ex:
+            raise AnalysisError("%s: cannot evaluate over abstract definitions: %s" % (fn.short, ex))
+        got = set()
+        foreign = []
+        for name, args, _kw in log:
+            if name != pair or len(args) != 2:
+                continue
+            x, y = args
+            if x is y or x.full_name != y.full_name or x.version.major != y.version.major:
+                foreign.append((x.source_file_path, y.source_file_path))
+            got.add(frozenset((x.source_file_path, y.source_file_path)))
+        want = {frozenset((x.source_file_path, y.source_file_path)) for x in defs for y in defs if x is not y and x.full_name == y.full_name and x.version.major == y.version.major}
+        ctx.count(len(want))
+        missing = sorted(tuple(sorted(p)) for p in want - got)
+        if missing or foreign:
+            bad.append({"not compared": missing[:4], "compared although not versions of one name and major": foreign[:4]})
+    ctx.check(not bad, fn.short, "grouping by (full_name, major) and all distinct pairs", "every two different minor versions under one name and major must be compared", fn.where(), bad[:2])
 
 
 def rule_r4(ctx: Ctx) -> None:
     ctx.rule("C11.R4", "scope: port-ID collisions over the direct (target) types, version compatibility over transitive + direct", min_instances=2)
     fn = ctx.func(NS + "._complete_read_function")
-    body = body_without_docstring(fn.node)
-    top_calls = {}
-    defs_var = None
-    for st in body:
-        if isinstance(st, ast.Assign) and isinstance(st.value, ast.Call) and dotted(st.value.func) == "read_definitions" and isinstance(st.targets[0], ast.Name):
-            defs_var = st.targets[0].id
-        if isinstance(st, ast.Expr) and isinstance(st.value, ast.Call):
-            n = dotted(st.value.func)
-            if n in ("_ensure_no_fixed_port_id_collisions", "_ensure_minor_version_compatibility"):
-                top_calls[n] = st.value
-    if defs_var is None:
-        raise AnalysisError("_complete_read_function: read_definitions result not found")
-    def operands(e: ast.AST) -> List[str]:
-        if isinstance(e, ast.BinOp) and isinstance(e.op, ast.Add):
-            return operands(e.left) + operands(e.right)
-        return [norm(e)]
-
+    direct = [_definition(ctx, "ns.D%d" % i, 1, 0, False, None) for i in range(2)]
+    transitive = [_definition(ctx, "ns.T%d" % i, 1, 0, False, None) for i in range(2)]
+    result = Sym(direct=list(direct), transitive=list(transitive))
+    log: List[Any] = []
+    rec = ["read_definitions", "_ensure_no_fixed_port_id_collisions", "_ensure_minor_version_compatibility", "_construct_lookup_directories_path_list", "_construct_dsdl_definitions_from_namespaces", "_ensure_no_namespace_name_collisions_or_nested_root_namespaces"]
+    hook = module_call_hook(ctx, fn.module, [], log, record=rec, results={"read_definitions": result, "_ensure_no_fixed_port_id_collisions": None, "_ensure_minor_version_compatibility": None, "_construct_lookup_directories_path_list": [], "_construct_dsdl_definitions_from_namespaces": [], "_ensure_no_namespace_name_collisions_or_nested_root_namespaces": None})
+    params = fn.params
+    args: Dict[str, Any] = {}
+    for p_ in params:
+        args[p_] = ([] if ("list" in p_ or "definitions" in p_ or "director" in p_) else (None if "handler" in p_ else False))
+    try:
+        ret = call_fn(ctx, fn, [], args, hook=hook, keep=tuple(fn.module.functions))
+    except Raised as r:
+        raise AnalysisError("%s raised %s over abstract arguments" % (fn.short, r.cls_name))
+    except Unfoldable as ex:
+        raise AnalysisError("%s: cannot evaluate over abstract arguments: %s" % (fn.short, ex))
+    calls = {name: a for name, a, _ in log}
+    c1 = calls.get("_ensure_no_fixed_port_id_collisions")
+    c2 = calls.get("_ensure_minor_version_compatibility")
+    ids1 = {id(x) for x in (c1[0] if c1 else [])}
+    ids2 = {id(x) for x in (c2[0] if c2 else [])}
     # C11 demands that the checks *cover* these sets; whether anything beyond them may be looked at is C19's business
-    c1 = top_calls.get("_ensure_no_fixed_port_id_collisions")
-    ops1 = operands(c1.args[0]) if c1 is not None and len(c1.args) == 1 else []
-    ctx.check("%s.direct" % defs_var in ops1, fn.short, "collision check scope", "the port-ID collision check must run unconditionally over (at least) the target types", fn.where(), norm(c1) if c1 else None)
-    c2 = top_calls.get("_ensure_minor_version_compatibility")
-    ops2 = operands(c2.args[0]) if c2 is not None and len(c2.args) == 1 else []
-    ctx.check({"%s.direct" % defs_var, "%s.transitive" % defs_var} <= set(ops2), fn.short, "compatibility check scope", "the minor-version check must run unconditionally over (at least) direct + transitive types", fn.where(), norm(c2) if c2 else None)
-    rets = [n for n in body if isinstance(n, ast.Return)]
-    ctx.check(len(rets) == 1 and norm(rets[0].value) == defs_var and body.index(rets[0]) > max(body.index(s) for s in body if isinstance(s, ast.Expr) and isinstance(s.value, ast.Call) and s.value in top_calls.values()), fn.short, "checks precede the return", "results are returned only after both checks", fn.where(), nontrivial=False)
+    ctx.check(c1 is not None and {id(x) for x in direct} <= ids1, fn.short, "collision check scope", "the port-ID collision check must run unconditionally over (at least) the target types", fn.where())
+    ctx.check(c2 is not None and {id(x) for x in direct + transitive} <= ids2, fn.short, "compatibility check scope", "the minor-version check must run unconditionally over (at least) direct + transitive types", fn.where())
+    ctx.check(ret is result, fn.short, "checks precede the return", "the read results are returned, after both checks", fn.where(), nontrivial=False)
 
 
 def run(ctx: Ctx) -> None:
